@@ -147,6 +147,10 @@ def run (j : Json) : Except String Json := do
   let env := genEnv
   let out := runProg env prog targets heap
   let modelObs := observe env heap.length out
+  -- hypothesis-violating stream (init returns a shared object): an operator call that fails
+  -- half-way has already mutated that object; such partial effects are not modelled
+  if !prog.initAllocates && modelObs.results.any (fun r => match r with | .err .. => true | _ => false) then
+    return Json.mkObj [("skip", true), ("why", "shared init and a failing operator call")]
   let agree := modelObs == implObs
   let holds := checkC15 env heap prog targets implObs
   let modelHolds := checkC15 env heap prog targets modelObs
